@@ -73,6 +73,10 @@ type Exec struct {
 	NOk       int
 	Mutations int
 	Budget    int64 // upper bound of blocks the history may still consume
+	// SlowCommit: the request's own goroutine rests this long at every commit point of its transactions (locks held,
+	// nothing handed to the journal yet), so that background goroutines - shrinker, logger, installer - get ahead
+	// of it where the server lets them.  A perturbation of the schedule, never a verdict.
+	SlowCommit time.Duration
 	// LastStable is true when the last successful mutating operation was acknowledged with stable semantics.
 	Unflushed    bool
 	lastUnstable *MNode
@@ -174,6 +178,19 @@ func (x *Exec) call(f func()) error {
 	if x.S != nil && x.S.N != nil {
 		mon := x.S.Mon()
 		txn = func() int64 { return atomic.LoadInt64(&mon.Begun) }
+	}
+	if x.SlowCommit > 0 && x.S != nil && x.S.N != nil {
+		mon := x.S.Mon()
+		var gid atomic.Uint64
+		d := x.SlowCommit
+		mon.SetYield(func(point string) {
+			if point == "commit" && goid() == gid.Load() {
+				time.Sleep(d)
+			}
+		})
+		defer mon.SetYield(nil)
+		g := f
+		f = func() { gid.Store(goid()); g() }
 	}
 	o := GuardTxn(x.Watchdog, f, txn)
 	if o.Slow {
